@@ -15,6 +15,7 @@ import Sudachi.Model.Params
 import Sudachi.Model.LayersIO
 import Sudachi.Model.Codec
 import Sudachi.Model.CodecBuild
+import Sudachi.Model.Trie
 /-! Line protocol dispatcher: one case per line in, one answer per line out. -/
 namespace Driver
 
@@ -39,6 +40,7 @@ def answer (line : String) : String :=
     | "C20" => Params.handle op rest
     | "C12" => Layers.handle op rest
     | "C05" => Codec.handle rest
+    | "C04" => Trie.handle op rest
     | _ => "bad-op"
   | _ => "bad-op"
 
